@@ -90,11 +90,50 @@ PARENTS = {'TwoArgErr': ['Exception'], 'KwErr': ['Exception'], 'HandleErr': ['Ex
 def work(p, *args, **kwargs):
     if p.sleep:
         time.sleep(p.sleep)
+    if p.exc == 'KeyboardInterrupt':
+        raise KeyboardInterrupt
     if p.exc in NONPORTABLE:
         raise NONPORTABLE[p.exc](p.ident)
     if p.exc:
         raise EXC[p.exc](p.ident)
     return p.ident * 10
+
+
+def _vpay():
+    from tatsu.parproc.payload import VisualPayload
+    return VisualPayload
+
+
+def _rec(n):
+    return 0 if n == 0 else 1 + _rec(n - 1)
+
+
+def work_legacy(path, *args, **kwargs):
+    """a function written for the old interface: it takes the path of the payload (given the payload object, Path() raises TypeError and
+    the loop calls it again with payload.path); the work recurses as deep as the file name says (a deeply nested input)"""
+    from pathlib import Path
+    name = Path(path).name          # 'd<depth>x<ident>'
+    depth = int(name[1:name.index('x')])
+    return _rec(depth)
+
+
+def run_legacy(depths, workers, parallel):
+    """VisualPayload payloads + a path-taking function + inputs that need a deep stack: one result per payload, in both modes"""
+    from pathlib import Path
+    from tatsu.parproc import parproc
+    VP = _vpay()
+    payloads = [VP(path=Path(f'd{d}x{i}'), payload=None) for i, d in enumerate(depths)]
+    want = Counter((f'd{d}x{i}', d, None) for i, d in enumerate(depths))
+    try:
+        got = Counter((r.payload.path.name, r.outcome, type(r.exception).__name__ if r.exception is not None else None)
+                      for r in parproc(work_legacy, payloads, parallel=parallel, max_workers=workers))
+    except BaseException as e:  # noqa: BLE001 - RecursionError / RuntimeError escaping the loop is the failure looked for
+        return dict(bucket=f'legacy:raises:{type(e).__name__}', oracle='the loop yields one result per payload (deep recursion inside a task is the task\'s business)',
+                    observed=str(e)[:200], depths=depths, parallel=parallel)
+    if got != want:
+        return dict(bucket='legacy:multiset', oracle='exactly one result per payload carrying the function\'s outcome', yielded=sorted(got.elements(), key=repr)[:6],
+                    expected=sorted(want.elements(), key=repr)[:6], depths=depths, parallel=parallel)
+    return None
 
 
 def key_of(r):
@@ -343,6 +382,29 @@ def run_real(spec, workers, sleeps, pickable):
     return None
 
 
+def run_after_interrupt(spec, pickable, parallel=False, workers=2):
+    """fault sequence: an earlier, independent run in this interpreter was interrupted (a task raised KeyboardInterrupt and the caller
+    survived it); the run under test comes afterwards and must yield one result per payload like any other"""
+    from tatsu.parproc import parproc
+    try:
+        list(parproc(work, [Pay(0), Pay(1, 'KeyboardInterrupt'), Pay(2)], parallel=False))
+        interrupted = False
+    except KeyboardInterrupt:
+        interrupted = True
+    pk = repr if pickable == 'repr' else None
+    kw = dict(pickable=pk) if pk else {}
+    try:
+        got = [key_of(r) for r in parproc(work, make_payloads(spec), parallel=parallel, max_workers=workers, **kw)]
+    except Exception as e:
+        return dict(bucket=f'after-interrupt:raises:{type(e).__name__}', oracle='a run after an interrupted earlier run yields results', observed=str(e)[:200], spec=spec), interrupted
+    pkf = repr if pickable == 'repr' else (lambda x: x)
+    model = Counter(model_key(p, pkf) for p in make_payloads(spec))
+    if Counter(got) != model:
+        return dict(bucket='after-interrupt:multiset', oracle='exactly one result per payload, carrying the outcome or the captured exception, whatever ran (and was interrupted) before',
+                    yielded=sorted(got, key=repr)[:6], model=sorted(model.elements(), key=repr)[:6], spec=spec, parallel=parallel), interrupted
+    return None, interrupted
+
+
 def plan(tier):
     nreal = 25 if tier == 'quick' else 200
     nh = 3000 if tier == 'quick' else 40000
@@ -398,11 +460,34 @@ def run_random(sh, n):
                 sample=dict(spec=spec, workers=workers, schedule=ch.taken, completion_order=info.get('order')))
         if d is not None:
             sh.fail(d['bucket'], dict(kind='owned', spec=spec, workers=workers, pickable=pickable, path=ch.taken), d)
+        if rnd.random() < 0.05:
+            d, interrupted = run_after_interrupt(spec, pickable)
+            sh.case(('after-interrupt', repr(spec), pickable), interrupted and len(spec) >= 2, ['fault sequence: run after an interrupted run (sequential mode)'],
+                    sample=dict(earlier_run='a task raised KeyboardInterrupt', spec=spec))
+            if d is not None:
+                sh.fail(d['bucket'], dict(kind='after-interrupt', spec=spec, pickable=pickable, parallel=False), d)
     hyp_run(sh, gen.rnds(), body, n)
 
 
 def run_real_shard(sh, n):
     def body(rnd):
+        if rnd.random() < 0.15:
+            depths = [rnd.choice([0, 3, 40, 900, 1500, 3000]) for _ in range(rnd.choice([1, 2, 3, 5]))]
+            parallel = rnd.random() < 0.5
+            d = run_legacy(depths, rnd.randint(1, 3), parallel)
+            sh.case(('legacy', repr(depths), parallel), len(depths) >= 2 and max(depths) > 1000, ['VisualPayload + path-taking function + deep recursion', 'legacy:parallel' if parallel else 'legacy:sequential'],
+                    sample=dict(depths=depths, parallel=parallel))
+            if d is not None:
+                sh.fail(d['bucket'], dict(kind='legacy', depths=depths, parallel=parallel, spec=[], workers=2), d)
+            return
+        if rnd.random() < 0.15:
+            spec = gen_spec(rnd, rnd.choice([2, 4, 6]))
+            pickable = rnd.choice(['identity', 'repr'])
+            d, interrupted = run_after_interrupt(spec, pickable, parallel=True, workers=rnd.randint(1, 3))
+            sh.case(('after-interrupt-real', repr(spec), pickable), interrupted, ['fault sequence: run after an interrupted run (process pool)'], sample=dict(spec=spec))
+            if d is not None:
+                sh.fail(d['bucket'], dict(kind='after-interrupt', spec=spec, pickable=pickable, parallel=True), d)
+            return
         spec = gen_spec(rnd, rnd.choice([0, 1, 2, 4, 6, 7, 9]))
         workers = rnd.randint(1, 3)
         sleeps = [rnd.choice([0, 0.001, 0.003, 0.005]) for _ in spec]
@@ -417,6 +502,11 @@ def run_real_shard(sh, n):
 
 def replay(case):
     spec = [(e, list(a)) for e, a in case['spec']]
+    if case.get('kind') == 'legacy':
+        return run_legacy(case['depths'], case.get('workers', 2), bool(case.get('parallel')))
+    if case.get('kind') == 'after-interrupt':
+        d, _ = run_after_interrupt(spec, case.get('pickable', 'identity'), parallel=bool(case.get('parallel')))
+        return d
     if case.get('kind') == 'real':
         return run_real(spec, case['workers'], case['sleeps'], case.get('pickable', 'identity'))
     d, _, _ = run_owned(spec, case['workers'], case.get('pickable', 'identity'), case.get('path', []))
